@@ -10,7 +10,8 @@
 //!     with the real SubtypeChecker, whose contract unit U3 proves);
 //!   * the result does not depend on the order (same import names up to order, same export sets); aggregating every
 //!     requirement a second time changes nothing (idempotent).
-//! Universe: names a:b/c@0.2.0, a:b/c@0.2.1, a:b/c@0.3.0, a:b/c@1.0.0, a:b/c@1.2.0, plain `x`; instance requirements with
+//! Universe: names a:b/c@0.2.0, a:b/c@0.2.1, a:b/c@0.3.0, a:b/c@1.0.0, a:b/c@1.2.0, a:b/c@0.21.0 and a:b/c@12.0.0 (other tracks
+//! whose names have a track key of the former as a textual prefix), plain `x`; instance requirements with
 //! exports f: F1|F2|absent, g: F1|absent; for `x` also the bare functions F1 and F2.
 //! Exit 0 = agreement, 1 = a disagreeing multiset/order is printed.   usage: c09_merge [max_contributors]
 use std::collections::{BTreeMap, BTreeSet, HashSet};
@@ -19,8 +20,8 @@ use wac_types::{FuncType, Interface, ItemKind, PrimitiveType, SubtypeChecker, Ty
 #[derive(Clone, Copy, PartialEq, Eq, Debug, PartialOrd, Ord)]
 enum Req { Inst { f: u8, g: u8 }, Func(u8) }   // f: 0 absent, 1 F1, 2 F2; g: 0 absent, 1 F1
 
-const NAMES: [&str; 6] = ["a:b/c@0.2.0", "a:b/c@0.2.1", "a:b/c@0.3.0", "a:b/c@1.0.0", "a:b/c@1.2.0", "x"];
-fn group_of(n: usize) -> usize { match n { 0 | 1 => 0, 2 => 1, 3 | 4 => 2, _ => 3 } }
+const NAMES: [&str; 8] = ["a:b/c@0.2.0", "a:b/c@0.2.1", "a:b/c@0.3.0", "a:b/c@1.0.0", "a:b/c@1.2.0", "x", "a:b/c@0.21.0", "a:b/c@12.0.0"];
+fn group_of(n: usize) -> usize { match n { 0 | 1 => 0, 2 => 1, 3 | 4 => 2, 5 => 3, 6 => 4, _ => 5 } }
 
 fn build(types: &mut Types, name: &str, r: Req) -> ItemKind {
     let mut func = |types: &mut Types, k: u8| types.add_func_type(FuncType {
@@ -89,6 +90,7 @@ fn main() {
     for n in 0..NAMES.len() {
         for f in 0..3u8 { for g in 0..2u8 { pool.push((n, Req::Inst { f, g })); } }
         if n == 5 { pool.push((n, Req::Func(1))); pool.push((n, Req::Func(2))); }
+        if n >= 6 { pool.truncate(pool.len() - 4); }   // the two prefix-confusable names: two requirement shapes each are enough
     }
     let (mut multisets, mut runs, mut conflicts) = (0u64, 0u64, 0u64);
     // multisets as non-decreasing index tuples
@@ -109,7 +111,7 @@ fn main() {
             let ms: Vec<(usize, Req)> = t.iter().map(|i| pool[*i]).collect();
             // at least two members must share a group, otherwise nothing merges (keep a few of those too)
             let groups: BTreeSet<usize> = ms.iter().map(|(n, _)| group_of(*n)).collect();
-            if groups.len() == ms.len() && t.iter().sum::<usize>() % 5 != 0 { continue; }
+            if groups.len() == ms.len() && !ms.iter().any(|(n, _)| *n >= 6) && t.iter().sum::<usize>() % 5 != 0 { continue; }
             multisets += 1;
             let want = reference(&ms);
             if want.is_err() { conflicts += 1; }
